@@ -8,10 +8,13 @@ TRUSTED_BASE = [
     'validated every run: the programs it emits are executed by the model and compared event by event '
     'with the compiled integrator built from the same source',
     'hand-written model lean/PysphVerif/Model/Stepper.lean of the class generated from integrator_cython.mako / '
-    'integrator_cython_helper.py and of Integrator.compute_accelerations/update_domain, tied by tracer steppers, '
-    'tracer equations and delegating proxies through the real SPHCompiler (harness/c04.py)',
+    'integrator_cython_helper.py and of Integrator.compute_accelerations/update_domain, and '
+    'Model/StepperHist.lean of the attributes the public setters change between steps (set_nnps, '
+    'set_post_stage_callback, set_fixed_h), tied by tracer steppers, tracer equations, logging NNPS subclasses '
+    'and delegating evaluator proxies through the real SPHCompiler (harness/c04.py)',
     'the tracers themselves (generated stepper/equation source logging into one shared constant array; '
-    'delegating NNPS/evaluator proxies installed on the Python Integrator object)',
+    'Python subclasses of LinkedListNNPS/BoxSortNNPS that record which object is updated, given to the public '
+    'set_nnps; delegating evaluator proxies installed on the Python Integrator object)',
     'compyle, Cython, g++ (third party): exercised by the tie, not modelled',
 ]
 ASSUMPTIONS = [
@@ -34,18 +37,28 @@ LEVEL_TEXT = ("Lean 4 theorems for every program of the one_timestep language, e
               "stepper_refines_literal (the generated class = literal execution, under C06 alignment; "
               "alignment_is_necessary shows the hypothesis cannot be dropped), stage_touches_exactly_real, "
               "dest_order_perm/sorted, stage_time_is_last_post_stage, step_ignores_stale_registers, multi_step_compose, "
-              "trace_closed_form, callback_once_per_stage, well_staged_callbacks, and by `decide` over the table "
+              "trace_closed_form, callback_once_per_stage, well_staged_callbacks; for every HISTORY of public calls on "
+              "one integrator object (steps interleaved with set_nnps / set_post_stage_callback / set_fixed_h / particles "
+              "added): history_refines_literal (= literal reading with the NNPS and callback of the most recent setter "
+              "call), hist_attributes_are_last_set, refresh_targets_last_set_nnps (a step refreshes / re-creates ghosts "
+              "through no other NNPS object and calls no other callback), fixed_h_is_irrelevant_to_steps; and by `decide` over the table "
               "regenerated from the source shipped_programs_well_staged / shipped_programs_end_at_t_plus_dt. "
               "The programs are re-translated from /repo on every run; the model of the generated class is tied to the "
               "real pipeline (mako template -> compyle -> Cython -> g++) by tracer steppers/equations whose complete "
               "event log (method, array, particle index, t, dt bit for bit, hook/NNPS/evaluator/callback events) must "
               "equal the model's trace, for shipped integrators with the method sets of their documented steppers and "
               "for generated 1-5 stage integrators with py_stage hooks, several evaluators, per-array steppers, hooks "
-              "that add particles, each configuration in the option matrix domain {periodic, mirror (reflecting walls), "
+              "that add particles, tracer methods in 9 syntactic shapes (trailing else: pass, docstring+pass, nested, "
+              "multi-line signature, ...), one_timestep texts with docstrings/comments/pass/multi-line calls, histories "
+              "with a second set_nnps (new LinkedList / cached / BoxSort object, identity of the refreshed object logged), "
+              "callback replaced or removed, set_fixed_h toggled and particles added between steps, "
+              "each configuration in the option matrix domain {periodic, mirror (reflecting walls), "
               "none} x set_fixed_h {False, True} on one compiled module; the property's own predicate is evaluated by "
               "letting CPython execute the integrator's one_timestep literally, and after every "
               "Integrator.update_domain() the ghosts in the arrays must be exactly images (periodic translates / wall "
-              "reflections / none) of the current real particles with their current data.")
+              "reflections / none) of the current real particles with their current data; shipped steppers and generated "
+              "user-defined steppers with if/elif/else/pass bodies are compared bit for bit with CPython executing "
+              "one_timestep with the stepper's own methods.")
 LEVEL_NOTE = ("Partial: (1) proof covers the documented one_timestep language only (translator fails loudly outside it); "
               "(2) the generated Cython/C itself is third-party output: covered by the tie (testing), not by proof; "
               "(3) numerical stepper bodies: bit-exact differential execution on samples; (4) serial CPU backend only; "
